@@ -293,8 +293,42 @@ def check_word_count(ctx, F, tag, rule="C05.R3.word-count-follows-length"):
 
 
 
+def check_pop_refuses_short_vector(ctx, F, tag, rule="C05.R3.pop-refuses-a-short-vector"):
+    """`pop` returns what the reference sequence returns: None when the vector holds fewer bits than asked for.  Every `Some` that
+    pop_int builds lies behind a comparison of the vector's length with the width *parameter itself*; a width first clamped to
+    the length (`min(width, len)`) makes that comparison vacuous -- an empty vector then pops Some(0) for ever."""
+    from guards import facts_at, strip_casts
+    fn = "<raw_vector::RawVector as raw_vector::PopRaw>::pop_int"
+    if not F.has_body(fn):
+        return
+    b = F.body(fn)
+    somes = [(bi, st) for bi, si, st in b.stmts() if st["s"] == "assign" and st["rv"]["r"] == "agg" and st["rv"].get("def") == "std::option::Option" and st["rv"].get("variant") == 1]
+    if not somes:
+        ctx.ob(rule, fn + tag, loc(b.raw["span"]), None, "guard-dominance", "no Some(..) aggregate found in pop_int")
+        return
+
+    def is_len(t):
+        t = strip_casts(t)
+        while t[0] in ("ref", "deref"):
+            t = strip_casts(t[1])
+        return (t[0] == "call" and t[1].split("::")[-1] == "len") or (t[0] == "field" and t[2] == "len")
+    verdict = True
+    notes = []
+    for bi, st in somes:
+        fs = [f for f in facts_at(b, bi) if f[0] == "cmp" and f[1] in ("Ge", "Gt", "Le", "Lt") and (is_len(f[2]) or is_len(f[3]))]
+        direct = [f for f in fs if strip_casts(f[3] if is_len(f[2]) else f[2])[:2] == ("param", 1)]
+        if direct:
+            continue
+        derived = [f for f in fs if any(x[:2] == ("param", 1) for x in subterms(f[3] if is_len(f[2]) else f[2]))]
+        notes.append("Some at %s: %s" % (loc(st["sp"]), "compared with a value derived from the width: %s" % tstr(derived[0][3] if is_len(derived[0][2]) else derived[0][2])[:60] if derived else "no comparison of the length with the width"))
+        verdict = False if derived else (None if verdict else verdict)
+    ctx.ob(rule, fn + tag, loc(b.raw["span"]), verdict, "guard-dominance",
+           "%d Some(..) results, each behind `len >= width` on the width parameter itself%s" % (len(somes), ("; " + "; ".join(notes)) if notes else ""), positive=verdict is False)
+
+
 def check_config(ctx, F, tag):
     check_tail_invariant(ctx, F, tag)
+    check_pop_refuses_short_vector(ctx, F, tag)
     check_grow_fill(ctx, F, tag)
     from core import Relabel
     if not isinstance(ctx, Relabel) and tag in ("", "@portable"):
